@@ -137,7 +137,15 @@ impl<'a> SolutionNode<'a> {
                         // the no_backtracking flag there also.
                         if let Some(head_node) = &(*raw_ptr).head_sn {
                             let raw_ptr2 = head_node.as_ptr();
-                            (*raw_ptr2).no_backtracking = true;
+                            // The head node of the parent can be this node
+                            // itself. Its flag was set above; writing it
+                            // again through another pointer, while the
+                            // &mut self reference is alive, is undefined
+                            // behaviour.
+                            let self_ptr: *const SolutionNode<'a> = self;
+                            if !std::ptr::eq(raw_ptr2, self_ptr) {
+                                (*raw_ptr2).no_backtracking = true;
+                            }
                         }
                         // Get the next parent.
                         option_parent = &(*raw_ptr).parent_node;
